@@ -52,7 +52,9 @@ def histories(rng, tier):
                 h.append(gen.upd_line(rng, c, focus=focus))
             else:
                 op = rng.choice(['and', 'or', 'xor'])
-                tail = ' inplace=1' if rng.random() < 0.5 else ' r=t'
+                # (r=w: the history continues on the RESULT OBJECT of the copying operator itself — not on a
+                #  copy of it — so later growth runs on whatever storage the operator produced: seeded C13d)
+                tail = rng.choice([' inplace=1', ' inplace=1', ' r=t', ' r=w'])
                 h.append('sop w op=%s bits=%s%s' % (op, ','.join(map(str, bitlist())), tail))
                 if tail == ' r=t':
                     h += ['state t', 'copy t r=w']
